@@ -26,7 +26,7 @@ def cfgs(tier):
         i += 1
         out.append({"id": i, "algo": "VROOM", "kind": kind, "K": Kk, "D": D, "box": box, "n": n, "T": n, "prm": {"h_max": hm, "b": rnd.choice([1, 0.5, 2]), "f_max": rnd.choice([1, 2])},
                     "pattern": rnd.choice(["g01", "peak", "bern", "gneg", "const"]), "seed": rnd.randrange(1 << 30),
-                    "midq": sorted(rnd.sample(range(n), min(n, 4))) if rep % 3 == 2 else [], "rtype": [None, "f32", "f64", "i64", "int", None][rep % 6]})
+                    "midq": sorted(rnd.sample(range(n), min(n, 4))) if rep % 3 == 2 else [], "preq": rep % 4 == 1, "rtype": [None, "f32", "f64", "i64", "int", None][rep % 6]})
     return out
 
 
